@@ -130,3 +130,15 @@ Example C07_argument_runs :
   (* no transaction: any non-negative index passes validation *)
   fst (engine_execute_opts no_sigops (mkOpts (Some [x51]) (Some []) None None 9223372036854775807 0)) = VOk.
 Proof. vm_compute. repeat split; reflexivity. Qed.
+
+(** State inventory (tie, translator part): every Go struct the model of this property represents has, in the
+    source as it is NOW (gen/Structs.v, regenerated on every run), exactly the fields - names, types, order - the
+    model was written against (model/StateInventory.v).  New state in these objects (a memoised digest, a cached
+    document, a remembered operand) is state the theorems above do not speak about: this is the obligation that
+    stops checking then. *)
+From GoBT Require gen.Structs model.StateInventory.
+Theorem C07_state_inventory :
+  forall k, In k (StateInventory.group_of "C07") ->
+  exists f, StateInventory.lookup_gen gen.Structs.structs k = Some f /\ StateInventory.lookup_model k = Some f.
+Proof. apply StateInventory.inventory_ok_spec. vm_compute. reflexivity. Qed.
+Print Assumptions C07_state_inventory.
